@@ -43,7 +43,7 @@ def tiec(items):
             "audit": "Qvnt/Audit/GenCanon.lean", "sources": r"UNSUPPORTED .*"}
 
 
-TB_CANON = "canonical-text tie tools/canon.py: for the interpreter functions the model still mirrors by hand (gate application / definition / if statements and the session entry points of qasm/int/mod.rs, macros.rs, parse.rs, Sym::new / init) the current source text, normalised up to comments, layout and names of locals, must be the text the model was written against (tools/canon.json); an edit breaks the named obligation <item>_canon and is then examined by the correspondence suites"
+TB_CANON = "canonical-text tie tools/canon.py: for the interpreter code the model still mirrors by hand (macros.rs: Macro::new / process / process_nested; parse.rs: the meval context and eval_extended; the field lists of Int / Macro / Sym; Sym::new / init and its getters - int/mod.rs itself is translated by tools/rs2lean2.py and calls these through the model functions) the current source text, normalised up to comments, layout and names of locals, must be the text the model was written against (tools/canon.json); an edit breaks the named obligation <item>_canon and is then examined by the correspondence suites"
 
 TB_TIE2 = "translator tools/rs2lean2.py (collection-level Rust subset: iterator pipelines over Vec/VecDeque as lists, &mut methods as state-passing functions, loops with fuel, Option for unwrap/unreachable, `match self.th` reduced to the sequential arm after checking that the parallel arm is its rayon twin, random draws as inputs; regenerates Generated/Regs.lean from src/register/quant.rs, src/operator/{single,multi}/mod.rs, src/operator/multi/h.rs, src/operator/mod.rs and src/operator/single/{pauli,rotate,swap}.rs (public constructors), src/math/bits_iter.rs, src/register/{class,virtl}.rs, src/operator/multi/qft.rs, src/qasm/int/ext_op.rs, src/qasm/sym.rs and the declaration / argument-resolution / measure / reset / append functions of src/qasm/int/mod.rs (Result as Except) on every run; Lemmas/GenRegs2.lean, GenRegs3.lean, GenInt.lean prove every translated function equal to the model definition) - the translator and the dozen list combinators of Model/RustStd.lean are trusted, the output is not"
 TB_TIE_REG = "translator tools/rs2lean.py (straight-line Rust subset -> Lean; regenerates the classical-register functions of src/register/class.rs on every run; Lemmas/GenRegs.lean proves each equal to the model's CReg function) - the translator itself is trusted, its output is not"
@@ -121,7 +121,7 @@ PROPS = {
     },
     "C11": {
         "modules": ["Qvnt.Props.C11"],
-        "tie": [tiec(r"int_(new|add_ast|process_nodes|process_node|process_apply_gate|process_if|struct)|sym_\\w+"), tie(r"creg_(set|xor|reset|get)_eq|notW_eq", modules=("Qvnt.Lemmas.GenRegs",), audit="Qvnt/Audit/GenRegs.lean", sources=r"UNSUPPORTED class\.rs"), tie2(r"creg_get_by_mask_eq|quant_(reset_by_mask|measure_mask|reset)_eq|bitsList_eq|sym_(finish|step|reset)_eq|store_(set|xor)_eq|finish_as_foldlM|mstep_inv", r"UNSUPPORTED (quant\.rs: register/quant\.rs::(reset_by_mask|measure_mask|reset):|class\.rs|bits_iter\.rs|sym\.rs)", creg=True), tie2(r"extop_(push|append)_eq", r"UNSUPPORTED ext_op\.rs"), tie3(r"int_process_(measure|reset|barrier)_eq|int_branch(_with_id)?_eq|int_xor_eq|int_get_[qc]_idx_eq", r"UNSUPPORTED mod\.rs: qasm/int/mod\.rs::(process_(measure|reset|barrier)|branch|branch_with_id|xor|get_[qc]_idx_with_context|get_idx_by_alias):")],
+        "tie": [tie3(r"int_process_(apply_gate|gate|if|node|nodes|node_apply)_eq|int_(ast_changes|add_ast|new)_eq|processNode_disjoint|processApply_macros|foldlM_process|regsOf_eq|argsOf_eq", r"UNSUPPORTED mod\.rs: qasm/int/mod\.rs::(process_(apply_gate|gate|if|node|nodes)|ast_changes|add_ast|new):"), tiec(r"int_struct|macro_\\w+|parse_\\w+|sym_\\w+"), tie(r"creg_(set|xor|reset|get)_eq|notW_eq", modules=("Qvnt.Lemmas.GenRegs",), audit="Qvnt/Audit/GenRegs.lean", sources=r"UNSUPPORTED class\.rs"), tie2(r"creg_get_by_mask_eq|quant_(reset_by_mask|measure_mask|reset)_eq|bitsList_eq|sym_(finish|step|reset)_eq|store_(set|xor)_eq|finish_as_foldlM|mstep_inv", r"UNSUPPORTED (quant\.rs: register/quant\.rs::(reset_by_mask|measure_mask|reset):|class\.rs|bits_iter\.rs|sym\.rs)", creg=True), tie2(r"extop_(push|append)_eq", r"UNSUPPORTED ext_op\.rs"), tie3(r"int_process_(measure|reset|barrier)_eq|int_branch(_with_id)?_eq|int_xor_eq|int_get_[qc]_idx_eq", r"UNSUPPORTED mod\.rs: qasm/int/mod\.rs::(process_(measure|reset|barrier)|branch|branch_with_id|xor|get_[qc]_idx_with_context|get_idx_by_alias):")],
         "suites": [suite("intnu", dict(count=600), dict(count=20000))],
         "mismatch_tags": INT_STRUCT,
         "spec_tags": [r"refsem\.(psi|creg|run)", r"c11\..*", r"iexpect\.accept"],
@@ -129,26 +129,26 @@ PROPS = {
         "assumptions": ASSUME_COMMON + ["measurement outcomes are inputs (the implementation's draw log); declared register sizes are positive in C11_refine_partial (a zero-size register is the known finding D22)"],
         "level_text": "Lean theorems (Props/C11.lean): Sym::finish factors through the event list of the block queue; each statement kind contributes exactly its event (an `if` ALWAYS its own cond event, never merged into a preceding unconditional block; measure and reset their own events; barrier nothing); a cond event applies its operator iff get_by_mask of the condition register equals the value; storeBits changes exactly the paired classical bits (set / xor mode); the interpreter's masks are the reference masks; and the whole pipeline Interp.new -> Sym.finish equals the statement-by-statement reference execution (Spec.refRun) on final state, classical register and remaining draws, for every accepted program with positive register sizes, both measurement modes, user-defined gates included (C11_refine_partial; the unrestricted statement is false because of D22 and is kept in a comment with its counterexample). Tied to the code by the intnu suite (random programs mixing gates, measure in bit and register form, if on any register / value / position, reset of bits and registers, barriers): interpreter state and execution compared with the model for the logged outcomes, and with the reference semantics.",
         "level_note": "Trusted: Lean kernel + standard axioms; model of int/mod.rs, ext_op.rs, sym.rs (after the D11/D12 repairs). reset statistics (C11 'does not change the outcome statistics of other qubits') follow from reset = measure + X and C07_chain.",
-        "technique": tech_tie("classical-bit set / xor / reset / get_by_mask functions, reset_by_mask / measure_mask, the block queue, its execution (Sym::finish) and the measure / reset / barrier statements of the interpreter are"),
+        "technique": tech_tie("classical-bit set / xor / reset / get_by_mask functions, reset_by_mask / measure_mask, the block queue, its execution (Sym::finish) and the measure / reset / barrier statements of the interpreter are") + ' (incl. statement dispatch, gate application / definition / `if` statements and the session entry points process_node(s), process_apply_gate, process_gate, process_if, ast_changes, add_ast, Int::new of qasm/int/mod.rs, whose calls into macros.rs / parse.rs / gates.rs go to the hand-mirrored model functions tied by tools/canon.py and tools/extract.py)',
         "design_ref": "DESIGN.md section 5, C11 and Appendix B",
     },
     "C12": {
         "modules": ["Qvnt.Props.C12"],
-        "tie": [tiec(r"int_\\w+|macro_\\w+|parse_\\w+|sym_\\w+")],
+        "tie": [tie3(r"int_process_(apply_gate|gate|if|node|nodes|node_apply)_eq|int_(ast_changes|add_ast|new)_eq|processNode_disjoint|processApply_macros|foldlM_process|regsOf_eq|argsOf_eq", r"UNSUPPORTED mod\.rs: qasm/int/mod\.rs::(process_(apply_gate|gate|if|node|nodes)|ast_changes|add_ast|new):"), tiec(r"int_\\w+|macro_\\w+|parse_\\w+|sym_\\w+")],
         "suites": [suite("fuzz", dict(count=1500, timeout=120), dict(count=60000, timeout=3000)),
                    suite("intnu", dict(count=200), dict(count=3000))],
         "mismatch_tags": [r"i(add|chg)\.result", r"isym\.(new|init|reset|finish)(\.creg)?"],
         "spec_tags": [r"c12\..*"],
-        "trusted_base": [TB_CANON] + TB_COMMON,
+        "trusted_base": [TB_CANON] + [TB_TIE2] + TB_COMMON,
         "assumptions": ASSUME_COMMON + ["PARTIAL: text -> AST (crate qvnt-qasm) and text -> RPN (crate meval) are external and not modelled; they are explored by the fuzz suite under a watchdog (grammar-generated programs with token / character mutations, truncation, adversarial identifiers, numbers, nesting, recursion), which is exploration, not proof; three defects of that part are known findings (D16, D17, D21)"],
         "level_text": "Lean theorems (Props/C12.lean, 18): every place where the Rust interpreter could panic or loop (unwrap/expect of constructors, slice and HashMap indexing, the name recursion of gates::process, macro expansion) is an explicit `panic` outcome of the model, and NO such outcome is reachable: gates::process never panics for word-sized masks (each macro arm's popcount test is exactly the validity test of the constructor it calls, for all 22 rows of the regenerated table; the name recursion has enough fuel); macro expansion with the call stack check terminates for EVERY table, including mutually recursive definitions, and never indexes a missing formal; under the session invariant (established by the empty session, preserved by add_ast) add_ast returns a value or an error; an accepted program runs to completion for any sufficiently long outcome stream. Tied to the code by the fuzz suite (mutated sources: parse, interpret, execute; any panic / hang / crash of the implementation is a violation with the source as replay) and the intnu suite.",
         "level_note": "Trusted: Lean kernel + standard axioms; the external lexer/parser/expression parser (not modelled). Parameter values are not constrained to be finite in the model: D16 (NaN parameter panics at measurement) is a known finding.",
-        "technique": TECH + " (+ fuzzing of the unmodelled front end)",
+        "technique": tech_tie("interpreter functions of qasm/int/mod.rs (declarations, argument resolution, statement dispatch, gate application / definition / if, session entry points) are") + " (+ canonical-text tie for macros.rs / parse.rs, fuzzing of the unmodelled front end)",
         "design_ref": "DESIGN.md section 5, C12",
     },
     "C17": {
         "modules": ["Qvnt.Props.C17"],
-        "tie": [tiec(r"int_(new|add_ast|ast_changes|process_nodes|struct)|sym_\\w+"), tie2(r"extop_(push|append)_eq|sym_(finish|step|reset)_eq|finish_as_foldlM", r"UNSUPPORTED (ext_op\.rs|sym\.rs)", creg=True), tie3(r"int_(append|prepend)_int_eq", r"UNSUPPORTED mod\.rs: qasm/int/mod\.rs::(append_int|prepend_int):")],
+        "tie": [tie3(r"int_process_(apply_gate|gate|if|node|nodes|node_apply)_eq|int_(ast_changes|add_ast|new)_eq|processNode_disjoint|processApply_macros|foldlM_process|regsOf_eq|argsOf_eq", r"UNSUPPORTED mod\.rs: qasm/int/mod\.rs::(process_(apply_gate|gate|if|node|nodes)|ast_changes|add_ast|new):"), tiec(r"int_struct|sym_\\w+"), tie2(r"extop_(push|append)_eq|sym_(finish|step|reset)_eq|finish_as_foldlM", r"UNSUPPORTED (ext_op\.rs|sym\.rs)", creg=True), tie3(r"int_(append|prepend)_int_eq", r"UNSUPPORTED mod\.rs: qasm/int/mod\.rs::(append_int|prepend_int):")],
         "suites": [suite("c17", dict(count=300), dict(count=10000))],
         "mismatch_tags": INT_STRUCT,
         "spec_tags": [r"isame", r"iexpect\.asts"],
@@ -156,12 +156,12 @@ PROPS = {
         "assumptions": ASSUME_COMMON,
         "level_text": "Lean theorems (Props/C17.lean, 15): processing a concatenation is processing the parts in turn; adding chunks one by one (add_ast, or ast_changes + append_int: the same function in the model after the repairs) is accepted iff the whole text is, fails with the same error, and yields an interpreter with equal registers, gate definitions, measurement mode and an observationally equivalent block queue (equal runs for every outcome stream); the record of accepted chunks lists each chunk once, in order; running is invariant under that equivalence; reset after a run restores exactly Sym::new, so re-running reproduces the run from |0...0>. Tied to the code by the c17 suite: every program is fed whole, chunk by chunk through add_ast, and through ast_changes + append_int (1..5 chunks, with and without xor mode), executed with the same seed and compared on final state and classical register; chunk counts checked; reset+finish and init compared with the first run.",
         "level_note": "Trusted: Lean kernel + standard axioms; model of add_ast / ast_changes / append_int (after the D18/D19 repairs), ext_op.rs append/push, sym.rs.",
-        "technique": tech_tie("block queue (Op::push, Op::append), append_int / prepend_int and Sym::finish / reset are"),
+        "technique": tech_tie("block queue (Op::push, Op::append), append_int / prepend_int and Sym::finish / reset are") + ' (incl. statement dispatch, gate application / definition / `if` statements and the session entry points process_node(s), process_apply_gate, process_gate, process_if, ast_changes, add_ast, Int::new of qasm/int/mod.rs, whose calls into macros.rs / parse.rs / gates.rs go to the hand-mirrored model functions tied by tools/canon.py and tools/extract.py)',
         "design_ref": "DESIGN.md section 5, C17 and Appendix B",
     },
     "C18": {
         "modules": ["Qvnt.Props.C18"],
-        "tie": [tiec(r"int_(new|add_ast|ast_changes|process_nodes|process_node|process_apply_gate|process_gate|process_if|struct)|macro_struct"), tie3(r"int_(append|prepend)_int_eq|int_process_(qreg|creg)_eq", r"UNSUPPORTED mod\.rs: qasm/int/mod\.rs::(append_int|prepend_int|process_(qreg|creg)):")],
+        "tie": [tie3(r"int_process_(apply_gate|gate|if|node|nodes|node_apply)_eq|int_(ast_changes|add_ast|new)_eq|processNode_disjoint|processApply_macros|foldlM_process|regsOf_eq|argsOf_eq", r"UNSUPPORTED mod\.rs: qasm/int/mod\.rs::(process_(apply_gate|gate|if|node|nodes)|ast_changes|add_ast|new):"), tiec(r"int_struct|macro_struct"), tie3(r"int_(append|prepend)_int_eq|int_process_(qreg|creg)_eq", r"UNSUPPORTED mod\.rs: qasm/int/mod\.rs::(append_int|prepend_int|process_(qreg|creg)):")],
         "suites": [suite("c18", dict(count=400), dict(count=12000))],
         "mismatch_tags": [r"iadd\.(result|summary|blocks?\d*|tail)", r"inew.*"],
         "spec_tags": [r"iunchanged", r"isame", r"iexpect\.plant"],
@@ -169,7 +169,7 @@ PROPS = {
         "assumptions": ASSUME_COMMON + ["the theorem is immediate for a model that interprets a chunk into a delta and commits on success; its weight is on the correspondence, which shows that the real add_ast behaves like that model for failing chunks with the error after 0..7 accepted statements (also new registers / gate definitions) and for the continuation"],
         "level_text": "Lean theorems (Props/C18.lean): a rejected chunk returns the session unchanged and a later chunk behaves as if the attempt never happened (C18_rollback, C18_continue); statements before the failing one leave nothing behind (C18_prefix_discarded); the computed changes depend only on the session's registers and gate definitions. Tied to the code by the c18 suite: session, snapshot, failing chunk (20 kinds of violation after a prefix of good statements incl. fresh registers and gate definitions), check that Debug-level summary of the session is identical to the snapshot, then a continuation chunk, executed and compared with a session that never saw the failing chunk.",
         "level_note": "Trusted: Lean kernel + standard axioms; model of add_ast (after the D19 repair).",
-        "technique": tech_tie("commit step append_int and the declaration functions are"),
+        "technique": tech_tie("commit step append_int and the declaration functions are") + ' (incl. statement dispatch, gate application / definition / `if` statements and the session entry points process_node(s), process_apply_gate, process_gate, process_if, ast_changes, add_ast, Int::new of qasm/int/mod.rs, whose calls into macros.rs / parse.rs / gates.rs go to the hand-mirrored model functions tied by tools/canon.py and tools/extract.py)',
         "design_ref": "DESIGN.md section 5, C18",
     },
     "C19": {
@@ -203,7 +203,7 @@ PROPS = {
     },
     "C10": {
         "modules": ["Qvnt.Props.C10"],
-        "tie": [tiec(r"int_(new|add_ast|ast_changes|process_nodes|process_node|process_apply_gate|process_gate|struct)|macro_\\w+|parse_\\w+|sym_(struct|new)"), tie2(r"extop_(push|append)_eq|sym_(finish|step|reset)_eq|finish_as_foldlM", r"UNSUPPORTED (ext_op\.rs|sym\.rs)", creg=True), tie3(r"int_get_[qc]_idx_eq|fold_idx_eq|int_branch(_with_id)?_eq|int_process_(qreg|creg|barrier|opaque)_eq", r"UNSUPPORTED mod\.rs: qasm/int/mod\.rs::(get_idx_by_alias|get_[qc]_idx_with_context|branch|branch_with_id|process_(qreg|creg|barrier|opaque)):")],
+        "tie": [tie3(r"int_process_(apply_gate|gate|if|node|nodes|node_apply)_eq|int_(ast_changes|add_ast|new)_eq|processNode_disjoint|processApply_macros|foldlM_process|regsOf_eq|argsOf_eq", r"UNSUPPORTED mod\.rs: qasm/int/mod\.rs::(process_(apply_gate|gate|if|node|nodes)|ast_changes|add_ast|new):"), tiec(r"int_struct|macro_\\w+|parse_\\w+|sym_(struct|new)"), tie2(r"extop_(push|append)_eq|sym_(finish|step|reset)_eq|finish_as_foldlM", r"UNSUPPORTED (ext_op\.rs|sym\.rs)", creg=True), tie3(r"int_get_[qc]_idx_eq|fold_idx_eq|int_branch(_with_id)?_eq|int_process_(qreg|creg|barrier|opaque)_eq", r"UNSUPPORTED mod\.rs: qasm/int/mod\.rs::(get_idx_by_alias|get_[qc]_idx_with_context|branch|branch_with_id|process_(qreg|creg|barrier|opaque)):")],
         "suites": [suite("int", dict(count=500), dict(count=15000)), suite("c10e", dict(count=300), dict(count=6000)),
                    suite("c10f", dict(count=400), dict(count=12000))],
         "mismatch_tags": INT_STRUCT,
@@ -212,12 +212,12 @@ PROPS = {
         "assumptions": ASSUME_COMMON + ["text -> AST (crate qvnt-qasm) and expression text -> RPN (crate meval) are external and not modelled: the model starts from the AST / RPN the real crates produced; the intended value of generated expressions is known to the generator and compared with what the pipeline applied"],
         "level_text": "Lean theorems (Props/C10.lean, 20): bit k of the alias mask is set iff the k-th declared (qu)bit belongs to that register, a register declared after `pre` occupies bits pre.length .. pre.length+n-1 and r[i] resolves to 2^(offset+i), distinct (qu)bits are disjoint; every accepted gate statement changes the queue by exactly one push of its operator and nothing else, measure/reset by exactly one separator block, barrier/declarations not at all, and statements compose in program order; one level of a user-defined gate is its body with formal qubits and parameters substituted, in body order. Tied to the code by the int suite (random programs with several registers, interleaved cregs, parameterised nested gate definitions, expression trees): interpreter state and executed result compared with the model, and the executed result compared with the statement-by-statement reference semantics (Spec/RefSem); by the c10f suite: programs with nested, repeatedly called and built-in-shadowing user gates are run against their flattened form (every expansion done by the generator with the actual qubits and parameter values) through the implementation itself, final states must agree.",
         "level_note": "Trusted: Lean kernel + standard axioms; hand-written model of int/mod.rs, macros.rs, parse.rs (RPN evaluation); external parsers as stated.",
-        "technique": tech_tie("block queue (Op::push, Op::append), its execution (Sym::finish), and the interpreter's declarations / argument resolution / queue separators (check_*, process_qreg, process_creg, get_*_idx_with_context, branch) are"),
+        "technique": tech_tie("block queue (Op::push, Op::append), its execution (Sym::finish), and the interpreter's declarations / argument resolution / queue separators (check_*, process_qreg, process_creg, get_*_idx_with_context, branch) are") + ' (incl. statement dispatch, gate application / definition / `if` statements and the session entry points process_node(s), process_apply_gate, process_gate, process_if, ast_changes, add_ast, Int::new of qasm/int/mod.rs, whose calls into macros.rs / parse.rs / gates.rs go to the hand-mirrored model functions tied by tools/canon.py and tools/extract.py)',
         "design_ref": "DESIGN.md section 5, C10",
     },
     "C13": {
         "modules": ["Qvnt.Props.C13"],
-        "tie": [tiec(r"int_(new|add_ast|ast_changes|process_nodes|process_node|process_apply_gate|process_gate|process_if|struct)|macro_\\w+|parse_\\w+"), tie3(r"int_check_(ident|reg_size|dup)_eq|int_process_(qreg|creg|measure|reset)_eq|int_get_[qc]_idx_eq|fold_idx_eq", r"UNSUPPORTED mod\.rs: qasm/int/mod\.rs::(check_(ident|reg_size|dup)|process_(qreg|creg|measure|reset)|get_[qc]_idx_with_context|get_idx_by_alias):")],
+        "tie": [tie3(r"int_process_(apply_gate|gate|if|node|nodes|node_apply)_eq|int_(ast_changes|add_ast|new)_eq|processNode_disjoint|processApply_macros|foldlM_process|regsOf_eq|argsOf_eq", r"UNSUPPORTED mod\.rs: qasm/int/mod\.rs::(process_(apply_gate|gate|if|node|nodes)|ast_changes|add_ast|new):"), tiec(r"int_struct|macro_\\w+|parse_\\w+"), tie3(r"int_check_(ident|reg_size|dup)_eq|int_process_(qreg|creg|measure|reset)_eq|int_get_[qc]_idx_eq|fold_idx_eq", r"UNSUPPORTED mod\.rs: qasm/int/mod\.rs::(check_(ident|reg_size|dup)|process_(qreg|creg|measure|reset)|get_[qc]_idx_with_context|get_idx_by_alias):")],
         "suites": [suite("c13", dict(count=600), dict(count=20000))],
         "mismatch_tags": [r"iadd\.result"],
         "spec_tags": [r"iexpect\..*"],
@@ -225,7 +225,7 @@ PROPS = {
         "assumptions": ASSUME_COMMON + ["statements the external parser itself rejects (e.g. a measure inside a gate body) surface as parse errors and are outside the model"],
         "level_text": "Lean theorems (Props/C13.lean, 52): the first error wins and nothing after it is looked at (a planted violation at any position is reported whatever follows); for each rule an iff-characterisation of when processNode returns that error with its exact payload and in which order the checks apply - undeclared / out-of-range register arguments, declaration limits (identifier length, register size, total size) and duplicates, measure size mismatch, non-gate under if, gate-body rules, unknown gate, register / parameter arity, control overlap, first unbound name in an expression; acceptance: a statement with no error condition is accepted and conversely (for programs using built-in gates). Tied to the code by the c13 suite: well-formed programs with exactly one planted violation (20 kinds) at a random position, expected variant checked on the implementation and payloads compared with the model; the same program without the violation must be accepted.",
         "level_note": "Trusted: Lean kernel + standard axioms; hand-written model of the interpreter's checks. Known finding: a zero-size register does not reserve its name (qreg a[0]; qreg a[1]; is accepted).",
-        "technique": tech_tie("static checks of declarations and argument resolution (check_ident, check_reg_size, check_dup, process_qreg, process_creg, get_*_idx_with_context, process_measure, process_reset) are"),
+        "technique": tech_tie("static checks of declarations and argument resolution (check_ident, check_reg_size, check_dup, process_qreg, process_creg, get_*_idx_with_context, process_measure, process_reset) are") + ' (incl. statement dispatch, gate application / definition / `if` statements and the session entry points process_node(s), process_apply_gate, process_gate, process_if, ast_changes, add_ast, Int::new of qasm/int/mod.rs, whose calls into macros.rs / parse.rs / gates.rs go to the hand-mirrored model functions tied by tools/canon.py and tools/extract.py)',
         "design_ref": "DESIGN.md section 5, C13",
     },
     "C15": {
